@@ -7,6 +7,7 @@ import RactorModel.Lemmas.PgConcLeak
 import RactorModel.Lemmas.PgConcHold
 import RactorModel.Lemmas.PgConcText
 import RactorModel.Lemmas.PgConcRead
+import RactorModel.Lemmas.PgConcLeaveStep
 
 /-!
 # C11 — process groups reflect live membership and tell their monitors
@@ -938,6 +939,88 @@ example :
       (membersOf (Conc.stAtH g rg.hist n) (1, 5)).isEmpty || (membersOf (Conc.stAtH g rg.hist n) (1, 6)).isEmpty) = true := by
   decide
 
+/-- **`leave_scoped`'s entry region, one relations lock at a time** (`Lemmas/PgConcLeaveStep.lean`). `Pg.Conc` takes
+the region as one step; `pg.rs` takes — holding the group entry `k` — the relations lock of one actor of the call
+after the other (`leaveRelOne`: `memberships.remove(&key)`), then updates the forward entry (`leaveFwdSt`).
+(1) the region IS those iterations followed by the forward part; (2) an iteration touches only `rel[x].mem`;
+(3) what any other region reads to decide something is unchanged by an iteration (only `x`'s own membership set,
+read by `take` of `x`'s exit, has lost `k`); (4) an iteration commutes, as far as any lookup can tell (`SEq`), with
+every region another thread can run while `k` is held: every region of every exit (`x`'s own included; `finish`
+of another actor), `joinLock` / `joinOne` (another entry or another actor) / `joinCommit` / clean-up of joins (not
+naming a stopping `x`), the entry region of any `leave_scoped`, every `monitor*` / `demonitor*` region (re-checks
+naming another actor or a live one). The two residual cases are characterised exactly:
+`Conc.leaveKey_nonmember` (the extra pending key of `take` is a no-op without a record) and
+`Conc.removeEmptyRel_leaveRelOne` (`remove_empty_actor_relations(x)` of a stopping `x`: the two orders differ by
+one EMPTY reverse-index entry of `x`, and only when `k` was the last thing in it). -/
+theorem conc_leave_iterations_commute (st : State) (k : Key) (x : Nat) :
+    (∀ s g as, (leaveEntry st s g as).1 =
+      if (get st.map (s, g)).isSome then
+        Conc.leaveFwdSt (as.foldl (fun st x => Conc.leaveRelOne st (s, g) x) st) (s, g) as else st) ∧
+    ((Conc.leaveRelOne st k x).map = st.map ∧ (Conc.leaveRelOne st k x).index = st.index ∧
+      (Conc.leaveRelOne st k x).world = st.world ∧ (Conc.leaveRelOne st k x).dead = st.dead ∧
+      (∀ y, y ≠ x → get (Conc.leaveRelOne st k x).rel y = get st.rel y)) ∧
+    ((∀ a, alive (Conc.leaveRelOne st k x) a = alive st a) ∧
+      (∀ k', recipients (Conc.leaveRelOne st k x) k' = recipients st k') ∧
+      (∀ a, (get (Conc.leaveRelOne st k x).rel a).isSome = (get st.rel a).isSome) ∧
+      (∀ a, Conc.relGmonOf (Conc.leaveRelOne st k x) a = Conc.relGmonOf st a) ∧
+      (∀ a, Conc.relWmonOf (Conc.leaveRelOne st k x) a = Conc.relWmonOf st a) ∧
+      (∀ a, a ≠ x → Conc.relMemOf (Conc.leaveRelOne st k x) a = Conc.relMemOf st a)) ∧
+    -- exits
+    (∀ a, Conc.SEq (markDead (Conc.leaveRelOne st k x) a) (Conc.leaveRelOne (markDead st a) k x)) ∧
+    (∀ a, Conc.SEq (demonTake (Conc.leaveRelOne st k x) a) (Conc.leaveRelOne (demonTake st a) k x)) ∧
+    (∀ a k', Conc.SEq (demonKey (Conc.leaveRelOne st k x) a k') (Conc.leaveRelOne (demonKey st a k') k x)) ∧
+    (∀ a s, Conc.SEq (demonWKey (Conc.leaveRelOne st k x) a s) (Conc.leaveRelOne (demonWKey st a s) k x)) ∧
+    (∀ a, Conc.SEq (takeMem (Conc.leaveRelOne st k x) a) (Conc.leaveRelOne (takeMem st a) k x)) ∧
+    (∀ a k', Conc.SEq (leaveKey (Conc.leaveRelOne st k x) a k').1 (Conc.leaveRelOne (leaveKey st a k').1 k x) ∧
+      (leaveKey (Conc.leaveRelOne st k x) a k').2 = (leaveKey st a k').2) ∧
+    (∀ a rm, a ≠ x →
+      Conc.SEq (finishLeave (Conc.leaveRelOne st k x) a rm).1 (Conc.leaveRelOne (finishLeave st a rm).1 k x) ∧
+      (finishLeave (Conc.leaveRelOne st k x) a rm).2 = (finishLeave st a rm).2) ∧
+    -- joins and leaves
+    (∀ k', Conc.SEq (Conc.touchGroup (Conc.leaveRelOne st k x) k') (Conc.leaveRelOne (Conc.touchGroup st k') k x)) ∧
+    (∀ k' y, (y = x → k' ≠ k) →
+      Conc.SEq (Conc.joinOne (Conc.leaveRelOne st k x) k' y) (Conc.leaveRelOne (Conc.joinOne st k' y) k x)) ∧
+    (∀ k' j, Conc.SEq (Conc.joinCommit (Conc.leaveRelOne st k x) k' j) (Conc.leaveRelOne (Conc.joinCommit st k' j) k x)) ∧
+    (∀ s g as, (x ∉ as ∨ alive st x = true) →
+      Conc.SEq (joinCleanup (Conc.leaveRelOne st k x) s g as) (Conc.leaveRelOne (joinCleanup st s g as) k x)) ∧
+    (∀ s g as, Conc.SEq (leaveEntry (Conc.leaveRelOne st k x) s g as).1 (Conc.leaveRelOne (leaveEntry st s g as).1 k x) ∧
+      (leaveEntry (Conc.leaveRelOne st k x) s g as).2 = (leaveEntry st s g as).2) ∧
+    -- monitors and demonitors
+    (∀ g b, Conc.SEq (Conc.monitorEntry (Conc.leaveRelOne st k x) g b) (Conc.leaveRelOne (Conc.monitorEntry st g b) k x)) ∧
+    (∀ s b, Conc.SEq (Conc.monitorScopeEntry (Conc.leaveRelOne st k x) s b)
+      (Conc.leaveRelOne (Conc.monitorScopeEntry st s b) k x)) ∧
+    (∀ g b, (b ≠ x ∨ alive st b = true) →
+      Conc.SEq (monitorRecheck (Conc.leaveRelOne st k x) g b) (Conc.leaveRelOne (monitorRecheck st g b) k x)) ∧
+    (∀ s b, (b ≠ x ∨ alive st b = true) →
+      Conc.SEq (monitorScopeRecheck (Conc.leaveRelOne st k x) s b) (Conc.leaveRelOne (monitorScopeRecheck st s b) k x)) ∧
+    (∀ g b, Conc.SEq (demonitor (Conc.leaveRelOne st k x) g b) (Conc.leaveRelOne (demonitor st g b) k x)) ∧
+    (∀ s b, Conc.SEq (demonitorScope (Conc.leaveRelOne st k x) s b) (Conc.leaveRelOne (demonitorScope st s b) k x)) ∧
+    (∀ g b, Conc.SEq (Conc.demonitorFwdSt (Conc.leaveRelOne st k x) g b) (Conc.leaveRelOne (Conc.demonitorFwdSt st g b) k x)) ∧
+    (∀ s b, Conc.SEq (Conc.demonitorScopeFwdSt (Conc.leaveRelOne st k x) s b)
+      (Conc.leaveRelOne (Conc.demonitorScopeFwdSt st s b) k x)) := by
+  have hf := Conc.leaveRelOne_frame st k x
+  have hr := Conc.leaveRelOne_reads st k x
+  exact ⟨fun s g as => Conc.leave_stepped st s g as,
+    ⟨hf.1, hf.2.1, hf.2.2.1, hf.2.2.2.1, hf.2.2.2.2.2.1⟩,
+    ⟨hr.1, hr.2.2.1, hr.2.2.2.1, hr.2.2.2.2.1, hr.2.2.2.2.2.1, hr.2.2.2.2.2.2.1⟩,
+    Conc.comm_markDead st k x, Conc.comm_demonTake st k x, fun a k' => Conc.comm_demonKey st k k' x a,
+    fun a s => Conc.comm_demonWKey st k x a s, Conc.comm_takeMem st k x, fun a k' => Conc.comm_leaveKey st k k' x a,
+    fun a rm h => Conc.comm_finishLeave st k x a rm h,
+    fun k' => Conc.comm_touchGroup st k k' x, fun k' y h => Conc.comm_joinOne st k k' x y h,
+    fun k' j => Conc.comm_joinCommit st k k' x j, fun s g as h => Conc.comm_joinCleanup st k x s g as h,
+    fun s g as => Conc.comm_leaveEntry st k x s g as,
+    fun g b => Conc.comm_monitorEntry st k x g b, fun s b => Conc.comm_monitorScopeEntry st k x s b,
+    fun g b h => Conc.comm_monitorRecheck st k x g b h, fun s b h => Conc.comm_monitorScopeRecheck st k x s b h,
+    fun g b => Conc.comm_demonitor st k x g b, fun s b => Conc.comm_demonitorScope st k x s b,
+    fun g b => Conc.comm_demonitorFwd st k x g b, fun s b => Conc.comm_demonitorScopeFwd st k x s b⟩
+
+/-- non-vacuity of the residual case (ii): actor 1 is stopping, its only reverse-index entry is its membership of
+(1,5): `remove_empty_actor_relations(1)` after the iteration removes the entry, before it leaves it behind empty -/
+example :
+    let st := markDead (run init [.join 1 5 [1]]) 1
+    get (removeEmptyRel (Conc.leaveRelOne st (1, 5) 1).rel 1) 1 = none ∧
+    get (Conc.leaveRelOne { st with rel := removeEmptyRel st.rel 1 } (1, 5) 1).rel 1 = some ⟨[], [], []⟩ := by decide
+
 end C11
 
 #print axioms C11.ok_reachable
@@ -984,3 +1067,4 @@ end C11
 #print axioms C11.conc_delivered_to_monitors_of_the_instant
 #print axioms C11.ineffective_leave_is_notified
 #print axioms C11.conc_readers_linearizable
+#print axioms C11.conc_leave_iterations_commute
